@@ -18,7 +18,9 @@ import warnings
 from mc import harness, par, refsem, sugar_model, tape
 
 PID = "C02"
-KINDS = {"B": None, "I01": (0, 1), "I-11": (-1, 1)}
+# IBIG / INEG: values outside CPython's small-integer cache (-5..256): a backend hands back a *fresh* int object at every
+# solve, so comparisons by identity instead of by value show up only there
+KINDS = {"B": None, "I01": (0, 1), "I-11": (-1, 1), "IBIG": (1000, 1001), "INEG": (-301, -300)}
 DEDUCTION_BACKENDS = ["sugar_extended", "csugar", "enigma_csp", "cspuz_core"]
 _FAKE_MODULES = {"csugar": "pycsugar", "enigma_csp": "enigma_csp", "cspuz_core": "cspuz_core"}
 
@@ -75,7 +77,9 @@ class ScriptedBackend(object):
             return False
         env = self.alive[type(self).TAPE.choose(len(self.alive))]
         for v in self.variables:
-            v.sol = env[v.id]
+            val = env[v.id]
+            # like a real backend, build the value anew at every solve (no object identity across solves)
+            v.sol = val if isinstance(val, bool) else int(str(val))
         return True
 
     def solve_irrefutably(self, is_answer_key):
@@ -334,7 +338,7 @@ def main(tier, seed, only=None):
         tier,
         seed,
         "model_checking",
-        "variable typings over {bool, int[0,1], int[-1,1]} with 1-2 variables (quick) / +3 variables with <= 8 assignments "
+        "variable typings over {bool, int[0,1], int[-1,1], int[1000,1001], int[-301,-300]} with 1-2 variables (quick) / +3 variables with <= 8 assignments "
         "(thorough); ALL subsets S of the assignment space as the solution set; ALL answer-key subsets; route 'scripted': ALL "
         "choice sequences of a conforming backend that may return any remaining model (choice-tape DFS on the real "
         "Solver.solve); route 'z3': the same (S, keys) through the real z3 backend; routes sugar_extended/csugar/enigma_csp/"
